@@ -88,6 +88,9 @@ func (e *Engine) runFunctionUnit(u *Unit) {
 		for _, rq := range env.expand(ct.Requires) {
 			st.assume(rq.term)
 		}
+		for _, rq := range env.expand(ct.Captured) {
+			st.assume(rq.term)
+		}
 		e.assumeHolds(st, fn, ct, env)
 	}
 	e.assumeTypeInvariants(st, fn, env)
@@ -151,7 +154,7 @@ func (e *Engine) checkFrame(st *State, env *Env, ct *Contract, pos token.Pos) {
 	}
 	a0 := st.init["$alloc"]
 	for _, h := range sortedKeys(st.heaps) {
-		if h == "$alloc" {
+		if h == "$alloc" || strings.HasPrefix(h, "IT!") {
 			continue
 		}
 		cur := st.heaps[h]
